@@ -496,11 +496,18 @@ namespace hgraph
                                 TSDDataMutationView *error_mutation,
                                 DateTime evaluation_time)
         {
+            // A child whose stop throws must not keep its siblings started:
+            // every slot gets its removal attempt and the first failure is
+            // rethrown once all of them have been visited.
+            FirstExceptionRecorder removal_failures;
             for (std::size_t slot = 0; slot < storage.entries.slot_capacity(); ++slot)
             {
-                remove_entry_at_slot(view, context, storage, output_mutation, error_mutation,
-                                     slot, evaluation_time);
+                removal_failures.capture([&] {
+                    remove_entry_at_slot(view, context, storage, output_mutation, error_mutation,
+                                         slot, evaluation_time);
+                });
             }
+            removal_failures.rethrow_if_any();
         }
 
         void create_entry_at_slot(const NodeView &view, const MapNodeContext &context, MapNodeStorage &storage,
